@@ -52,6 +52,22 @@ Section C02.
     intros pos0 prog G A B. apply (refines_general N L); [exact G|right; exact A|right; exact B].
   Qed.
 
+  (* the two intermediate variants: after a repair of only one of the two behaviours *)
+  Theorem C02_refines_none_fixed_partial : forall pos0 prog,
+      grammatical prog = true ->
+      no_coincident_arc N pos0 prog = true ->
+      impl_parse N true false (flatten N prog) pos0 = Ok (spec_run N pos0 prog).
+  Proof.
+    intros pos0 prog G B. apply (refines_general N L); [exact G|left; reflexivity|right; exact B].
+  Qed.
+  Theorem C02_refines_arc_fixed_partial : forall pos0 prog,
+      grammatical prog = true ->
+      no_smooth_after_close prog = true ->
+      impl_parse N false true (flatten N prog) pos0 = Ok (spec_run N pos0 prog).
+  Proof.
+    intros pos0 prog G A. apply (refines_general N L); [exact G|right; exact A|left; reflexivity].
+  Qed.
+
   (* ---- what single commands contribute (on the model of the code, any variant) ---- *)
   Section Variant.
     Variables none_ok coinc_ok : bool.
@@ -313,6 +329,8 @@ Proof. vm_compute. repeat split. Qed.
 Print Assumptions C02_refines_general.
 Print Assumptions C02_refines.
 Print Assumptions C02_refines_partial.
+Print Assumptions C02_refines_none_fixed_partial.
+Print Assumptions C02_refines_arc_fixed_partial.
 Print Assumptions C02_refines_partial_Q.
 Print Assumptions C02_refines_partial_R.
 Print Assumptions C02_zero_radius_arc_is_line.
